@@ -12,6 +12,7 @@ import (
 	_ "verifsim/worlda"
 	_ "verifsim/worldp"
 	_ "verifsim/worldr"
+	_ "verifsim/worlds"
 )
 
 func main() {
